@@ -129,6 +129,12 @@ def families(thorough):
                 s.append(Case(t, stop='X', paused=('after', k) + res))
         s.append(Case(t, stop='X', paused='start'))
         s.append(Case(t, stop='X', paused='start-resume'))
+    # session mode: a client that has not started its first transaction holds no server either -- PAUSE holds it just the same
+    for t in (['select'], ['begin', 'select', 'commit'], ['P', 'B', 'E', 'S']):
+        s.append(Case(t, stop='X', paused='start', mode='session'))
+        s.append(Case(t, stop='X', paused='start-resume', mode='session'))
+        s.append(Case(t, stop='X', paused=('after', 0), mode='session'))
+        s.append(Case(t, stop='X', paused=('after', 0, 'resume'), mode='session'))
     F['pause'] = s
     # -- plugin verdicts (symbolic per statement)
     s = []
